@@ -1058,7 +1058,7 @@ public:
     // inclusive
     void urandomint(integer_class &res, const integer_class &a)
     {
-        boost::random::uniform_int_distribution<integer_class> ui(0, a);
+        boost::random::uniform_int_distribution<integer_class> ui(0, a - 1);
         res = ui(_twister);
     }
 
